@@ -338,7 +338,7 @@ func (m *mutator) edit() bool {
 	if len(ts) == 0 {
 		return false
 	}
-	kind := []int{0, 0, 0, 1, 1, 1, 2, 2, 2, 2, 2, 2, 3, 4, 5, 6, 7, 8, 8, 9, 9, 10, 10, 11, 12, 12}[m.pick("edit", 26)]
+	kind := []int{0, 0, 0, 1, 1, 1, 2, 2, 2, 2, 2, 2, 3, 4, 5, 6, 7, 8, 8, 9, 9, 10, 10, 11, 12, 12, 13, 13, 14}[m.pick("edit", 29)]
 	switch kind {
 	case 0: // integer operand -> hostile constant
 		var idx []int
@@ -504,6 +504,26 @@ func (m *mutator) edit() bool {
 			}
 		}
 		m.edits = append(m.edits, "byteflips")
+	case 13: // the /Prev chain closed into a cycle, in half of the cases behind a preamble
+		out, label := addPrevCycle(m.data, m.rnd)
+		if out == nil {
+			return false
+		}
+		m.data = out
+		m.edits = append(m.edits, label)
+		if m.pick("withpreamble", 2) == 0 {
+			if out, label := addPreamble(m.data, m.rnd); out != nil {
+				m.data = out
+				m.edits = append(m.edits, label)
+			}
+		}
+	case 14: // junk before the header
+		out, label := addPreamble(m.data, m.rnd)
+		if out == nil {
+			return false
+		}
+		m.data = out
+		m.edits = append(m.edits, label)
 	case 12: // reference grammar: integers and R keywords around an existing reference
 		var idx []int
 		for i := 0; i+2 < len(ts); i++ {
